@@ -258,6 +258,19 @@ func init() {
 				}
 				return
 			}
+			var sh struct {
+				S      bool `json:"stale_handles"`
+				Cached bool `json:"cached"`
+				ByPass bool `json:"dropped_by_pass"`
+				Rounds int  `json:"rounds"`
+			}
+			if json.Unmarshal(ctx.Replay, &sh) == nil && sh.S {
+				ctx.Case(sh, "", "increments-through-handles-of-dropped-scopes", "")
+				if f := c01Stale(sh.Cached, sh.ByPass, sh.Rounds); f != "" {
+					ctx.Fail("deliveries_add_up_to_increments", f, sh, nil)
+				}
+				return
+			}
 			var cs8 struct {
 				S      bool `json:"close_during_stalled_delivery"`
 				Cached bool `json:"cached"`
@@ -410,6 +423,14 @@ func init() {
 			if f := c08InFlight(k%2 == 1, false, which); f != "" {
 				ctx.Fail("deliveries_add_up_to_increments", f, cs, nil)
 				break
+			}
+		}
+		// handles of dropped scopes stay harmless for every other counter and histogram
+		for k := 0; k < 4; k++ {
+			cs := map[string]interface{}{"stale_handles": true, "cached": k%2 == 1, "dropped_by_pass": k < 2, "rounds": 40}
+			ctx.Case(cs, "", "increments-through-handles-of-dropped-scopes", "")
+			if f := c01Stale(k%2 == 1, k < 2, 40); f != "" {
+				ctx.Fail("deliveries_add_up_to_increments", f, cs, nil)
 			}
 		}
 		// only the recording side is concurrent: first use of one counter by several goroutines at once;
